@@ -305,3 +305,57 @@ CHECKS["C27"] = {
         unit("./internal/machine", ["machine/c27.go"], "^Harness_C27_", QT, flags={"labels": "^(C27:|no-panic)"}, reach=["end"]),
     ],
 }
+
+
+SQL_ASSUME = [
+    "the statements are the ones the real store emits: captured on every run from the real Store methods and resource handlers on real bun (pgdialect) through a recording database/sql driver (harness/sqlcap), for the feature configuration at hand",
+    "sqlsym's semantics of the SQL subset (three-valued logic, joins, GROUP BY, DISTINCT ON, first_value windows, CTEs, jsonb as a finite map over 2 keys) is the documented PostgreSQL semantics; no PostgreSQL is available to test that, and SQL counterexamples are re-evaluated on the concrete instance only (sql_replayed_on_postgres: false)",
+    "page sizes are not smaller than the result (LIMIT never cuts); ORDER BY is not compared (results are compared as sets)",
+]
+
+
+def py_unit(module, run, args, tiers=QT, **kw):
+    u = {"kind": "py", "module": module, "pkg": "pychecks", "files": [], "run": run, "tiers": tiers, "args": args, "reach": ["end"]}
+    u.update(kw)
+    return u
+
+
+CHECKS["C05"] = {
+    "level": "other",
+    "explanation": "Every point-in-time / window read statement the real store emits — volumes (PIT, OOT, PIT+OOT x effective / insertion date), aggregated balances (PIT, first_value over post-commit [effective] volumes), accounts (PIT listing, expand volumes / effectiveVolumes) and transactions (PIT listing, revert mark) — is evaluated by the SQL evaluator over symbolic tables (moves, accounts_volumes, accounts, accounts_metadata, transactions, transactions_metadata; several ledgers, accounts and assets; arbitrary dates, so 'exactly on a recorded date' is covered) with symbolic PIT and OOT, and z3 decides that the result equals the fold of the moves in the window written directly as a formula: every returned row is right and every entity with history in the window is returned exactly once; an account appears iff first used by then; a transaction iff dated by then, its revert mark only if reverted by then. Reads based on first_value(post_commit[_effective]_volumes) are decided under the row invariants of C03 (post-commit volumes by insertion order) and C04 (effective volumes).",
+    "bounds": {"quick": "K <= 3 present rows per table", "thorough": "K <= 4 rows per table"},
+    "outside": "grouped volumes (groupLvl > 0: string_to_array/array_to_string are not in the SQL subset); filters combined with PIT (C20); PostgreSQL's casting of date strings; tables with more rows than K",
+    "assumptions": COMMON_ASSUME[2:] + SQL_ASSUME,
+    "technique": "bounded symbolic evaluation (z3) of the SQL text captured from the real store, against a reference fold",
+    "units": [py_unit("reads", "reads-C05", ["--props", "C05"])],
+}
+
+CHECKS["C17"] = {
+    "level": "other",
+    "explanation": "Read half: the account and transaction read statements the real store emits, with and without PIT, are evaluated over symbolic tables including the metadata history tables (jsonb as a finite map): without PIT the current metadata is returned; with PIT and the history feature on, the metadata of the revision with the greatest revision number among those dated <= the instant (empty when there is none). The same under each history feature switched off separately is part of C35.",
+    "bounds": {"quick": "K <= 3 rows per table (so <= 3 revisions), 2 metadata keys", "thorough": "K <= 4"},
+    "outside": "the write half: the SQL of the metadata updates and the history triggers (revision numbering, updated_at) is not encoded yet; metadata filters; more than 2 keys",
+    "assumptions": COMMON_ASSUME[2:] + SQL_ASSUME,
+    "technique": "bounded symbolic evaluation (z3) of the SQL text captured from the real store, against a reference fold",
+    "units": [py_unit("reads", "reads-C17", ["--props", "C17"])],
+}
+
+CHECKS["C35"] = {
+    "level": "other",
+    "explanation": "Read half of the feature-flag property: for each of 7 feature configurations (default, MOVES_HISTORY=OFF, MOVES_HISTORY_POST_COMMIT_EFFECTIVE_VOLUMES=DISABLED, ACCOUNT_METADATA_HISTORY=DISABLED, TRANSACTION_METADATA_HISTORY=DISABLED, HASH_LOGS=DISABLED, minimal) every read of the C05/C17 families is issued against the real store: either the store refuses it naming the feature the configuration lacks, or the emitted SQL is evaluated on symbolic tables populated as that configuration populates them (no moves without MOVES_HISTORY, NULL effective volumes without the effective-volumes triggers, empty history tables without the history triggers) and must equal the same reference as under the default configuration (current metadata when the history feature is off).",
+    "bounds": {"quick": "7 configurations x 40 read statements, K <= 3 rows per table", "thorough": "K <= 4"},
+    "outside": "the write half (same transactions/logs/volumes under any two configurations; moves inserted iff MOVES_HISTORY=ON; advisory lock iff HASH_LOGS=SYNC) is not covered by a check yet; the 48-way cross product of feature values (one feature flipped at a time, plus minimal)",
+    "assumptions": COMMON_ASSUME[2:] + SQL_ASSUME + ["which triggers a configuration installs is taken from the feature semantics documented in pkg/features, not derived from the migration templates"],
+    "technique": "bounded symbolic evaluation (z3) of the SQL text captured from the real store per feature configuration, against a reference fold",
+    "units": [py_unit("reads", "reads-C35", ["--props", "C35"])],
+}
+
+CHECKS["C19"] = {
+    "level": "other",
+    "explanation": "Non-interference for reads: every read statement of the C05/C17 families (captured from the real store for a ledger sharing its bucket, and again with the alone-in-bucket optimisation on) is shown equal to a function of THIS ledger's rows only, for every content of the other ledgers' rows in the same symbolic tables — the tables hold rows of arbitrary ledgers, the reference only looks at rows whose ledger column equals this ledger. With the optimisation on (ledger predicate omitted) the same is decided under 'every row of the bucket belongs to this ledger'.",
+    "bounds": {"quick": "K <= 3 rows per table, any number of distinct ledger names among them", "thorough": "K <= 4"},
+    "outside": "write statements and trigger bodies (not encoded yet); that the alone-in-bucket flag is only set while the bucket holds one ledger (Driver/Factory code, not checked here); several server processes sharing a bucket",
+    "assumptions": COMMON_ASSUME[2:] + SQL_ASSUME,
+    "technique": "bounded symbolic evaluation (z3) of the SQL text captured from the real store, against a reference over this ledger's rows",
+    "units": [py_unit("reads", "reads-C19", ["--props", "C19"])],
+}
